@@ -21,7 +21,9 @@ Reason(e) ==
          ELSE IF ~(ValidInstant(e.send) /\ ValidDelay(e.delay)) THEN "harness_domain"
          ELSE IF ~NearBy(e.send, e.est) THEN "estimate_off_by_seconds"
          ELSE IF DiffNs(e.send, e.est) < 0 THEN "estimate_after_send"
-         ELSE IF DiffNs(e.send, e.est) > EstimateTol THEN "estimate_off" ELSE ""
+         ELSE IF DiffNs(e.send, e.est) > EstimateTol THEN "estimate_off"
+         ELSE IF ~NearBy(e.send, e.est_direct) \/ DiffNs(e.send, e.est_direct) < 0 \/ DiffNs(e.send, e.est_direct) > EstimateTol THEN "estimate_off_on_constructed_value"
+         ELSE ""
     [] OTHER -> "unknown_event"
 Init == l = 1 /\ st = 0
 Next ==
